@@ -12,6 +12,7 @@ import (
 	"time"
 
 	"github.com/logrange/logrange/pkg/lql"
+	"github.com/logrange/logrange/pkg/model"
 	"github.com/logrange/logrange/pkg/model/tag"
 	"github.com/logrange/logrange/pkg/partition"
 	"github.com/logrange/logrange/pkg/tindex"
@@ -19,6 +20,7 @@ import (
 	"github.com/logrange/range/pkg/records"
 	"github.com/logrange/range/pkg/records/chunk"
 	"github.com/logrange/range/pkg/records/journal"
+	rbytes "github.com/logrange/range/pkg/utils/bytes"
 )
 
 // Proc is one client procedure of model/TIndex.v (same constructors, same parameters).
@@ -36,6 +38,17 @@ type Proc struct {
 	Zero   []int  `json:"zero,omitempty"`
 	Szpos  []int  `json:"szpos,omitempty"`
 	Glob   bool   `json:"glob,omitempty"`
+	// write with Create: go through the real partition.Service.Write (stub journal controller / journal);
+	// Abort then is the outcome: -1 all written, 0 Journals.GetOrCreate fails, 1 the journal refuses the
+	// first record, 2 the batch's iterator fails after an accepted record, 3 the journal fails after an
+	// accepted record.  The model's PWrite releases on every exit.
+	Real bool `json:"real,omitempty"`
+	// byid with Lock and Real: the real partition.Service.GetJournal / Release (Abort 0: the journal fails
+	// to open, GetJournal releases); visit (waiting, releasing) with Real: the real partition.Service.Partitions
+	// (Abort n: the journal of callback n fails to open = the visitor answers false there);
+	// trunc: tags whose journal fails to open in the visitor of Truncate (Ofail) / in truncateGlobally (Gfail)
+	Ofail []int `json:"ofail,omitempty"`
+	Gfail []int `json:"gfail,omitempty"`
 }
 
 func gOptNat(n int) string {
@@ -69,7 +82,7 @@ func (p Proc) Coq() string {
 	case "query":
 		return fmt.Sprintf("(PQuery %s %d %s)", gNats(p.M), p.Limit, gOptNat(p.Abort))
 	case "trunc":
-		return fmt.Sprintf("(PTrunc %s %s %s %s %s)", gNats(p.M), gNats(p.Zero), gNats(p.Szpos), gB(p.Glob), gOptNat(p.Abort))
+		return fmt.Sprintf("(PTrunc %s %s %s %s %s %s %s)", gNats(p.M), gNats(p.Zero), gNats(p.Szpos), gB(p.Glob), gOptNat(p.Abort), gNats(p.Ofail), gNats(p.Gfail))
 	}
 	panic("bad proc kind " + p.K)
 }
@@ -252,8 +265,27 @@ func (c *stubCtrl) GetOrCreate(ctx context.Context, jname string) (journal.Journ
 		return &stubJournal{name: jname}, nil
 	}
 	j := &stubJournal{a: a, name: jname}
+	if a.cur.K == "write" {
+		// partition.Service.Write holds the partition now
+		a.park(1, jname)
+		if a.cur.Abort == 0 {
+			return nil, fmt.Errorf("stub: journal %s cannot be opened", jname)
+		}
+		return j, nil
+	}
+	if a.cur.K == "byid" {
+		// partition.Service.GetJournal holds the partition now
+		a.park(1, jname)
+		if a.cur.Abort == 0 {
+			return nil, fmt.Errorf("stub: journal %s cannot be opened", jname)
+		}
+		return j, nil
+	}
 	if inFrame("truncateGlobally") {
 		a.park(4, jname)
+		if has(a.cur.Gfail, a.w.tagOfSrc(jname)) {
+			return nil, fmt.Errorf("stub: journal %s cannot be opened", jname)
+		}
 		return j, nil
 	}
 	n := a.cbCount
@@ -264,6 +296,12 @@ func (c *stubCtrl) GetOrCreate(ctx context.Context, jname string) (journal.Journ
 	a.park(2, jname)
 	if a.cur.K == "query" && a.cur.Abort == n {
 		a.failed = append(a.failed, jname)
+		return nil, fmt.Errorf("stub: journal %s cannot be opened", jname)
+	}
+	if a.cur.K == "visit" && a.cur.Abort == n {
+		return nil, fmt.Errorf("stub: journal %s cannot be opened", jname)
+	}
+	if a.cur.K == "trunc" && has(a.cur.Ofail, a.w.tagOfSrc(jname)) {
 		return nil, fmt.Errorf("stub: journal %s cannot be opened", jname)
 	}
 	return j, nil
@@ -291,7 +329,32 @@ type stubJournal struct {
 
 func (j *stubJournal) Name() string { return j.name }
 func (j *stubJournal) Write(ctx context.Context, rit records.Iterator) (int, journal.Pos, error) {
-	return 0, journal.Pos{}, fmt.Errorf("stub")
+	if j.a == nil || j.a.cur.K != "write" {
+		return 0, journal.Pos{}, fmt.Errorf("stub")
+	}
+	take := func(max int) int {
+		n := 0
+		for n < max {
+			if _, err := rit.Get(ctx); err != nil {
+				break
+			}
+			rit.Next(ctx)
+			n++
+		}
+		return n
+	}
+	switch j.a.cur.Abort {
+	case 1:
+		return 0, journal.Pos{}, fmt.Errorf("stub: the first record is refused")
+	case 2:
+		n := take(1) // then Write asks the iterator for the next record: it fails
+		return n, journal.Pos{CId: 1, Idx: uint32(n)}, nil
+	case 3:
+		n := take(1)
+		return n, journal.Pos{CId: 1, Idx: uint32(n)}, fmt.Errorf("stub: the journal failed after %d records", n)
+	}
+	n := take(1 << 20)
+	return n, journal.Pos{CId: 1, Idx: uint32(n)}, nil
 }
 func (j *stubJournal) Count() uint64                  { return 1 }
 func (j *stubJournal) Sync()                          {}
@@ -334,6 +397,7 @@ func (c *stubChunks) LocalFolder() string { return "" }
 
 type stubTs struct{ tmindex.TsIndexer }
 
+func (s *stubTs) OnWrite(src string, firstRec, lastRec uint32, rInfo tmindex.RecordsInfo) error { return nil }
 func (s *stubTs) LastChunkRecordsInfo(src string) (tmindex.RecordsInfo, error) {
 	return tmindex.RecordsInfo{}, fmt.Errorf("stub: no time index")
 }
@@ -370,6 +434,7 @@ func newWorld(pre int, progs [][]Proc) (*world, error) {
 	w.ps.TIndex = w.ti
 	w.ps.Journals = &stubCtrl{w}
 	w.ps.TsIndexer = &stubTs{}
+	w.ps.Pool = new(rbytes.Pool)
 	w.ps.MainCtx = context.Background()
 	for t := 0; t < pre; t++ {
 		src, _, err := w.ti.GetOrCreateJournal(tagLine(t))
@@ -478,6 +543,17 @@ func (a *actorT) exec(p Proc) {
 	ctx := context.WithValue(context.Background(), ctxKey{}, a)
 	switch p.K {
 	case "write":
+		if p.Create && p.Real {
+			it := &sliceIt{failAt: -1}
+			for i := 0; i < 3; i++ {
+				it.evs = append(it.evs, model.LogEvent{Timestamp: int64(100 + i), Msg: []byte("m")})
+			}
+			if p.Abort == 2 {
+				it.failAt = 1
+			}
+			w.ps.Write(ctx, tagLine(p.Tag), it, true)
+			return
+		}
 		var src string
 		var err error
 		if p.Create {
@@ -492,12 +568,22 @@ func (a *actorT) exec(p Proc) {
 		w.ti.Release(src)
 	case "byid":
 		src := w.srcOf(p.P)
+		if p.Real && p.Lock {
+			if _, _, err := w.ps.GetJournal(ctx, src); err == nil {
+				w.ps.Release(src)
+			}
+			return
+		}
 		if _, err := w.ti.GetJournalTags(src, p.Lock); err != nil || !p.Lock {
 			return
 		}
 		a.park(1, src)
 		w.ti.Release(src)
 	case "visit":
+		if p.Real && !p.Skip && !p.Norel {
+			w.ps.Partitions(ctx, srcCond(p.M), 0, 100)
+			return
+		}
 		flags := 0
 		if p.Skip {
 			flags |= tindex.VF_SKIP_IF_LOCKED
